@@ -105,11 +105,81 @@ class _SwapBranches(ast.NodeTransformer):
         return n
 
 
-VARIANTS = {"swap-eq": _SwapEq, "keys-in": _KeysIn, "swap-branches": _SwapBranches}
+def _jinja_rename_loopvars(src: str, suffix: str = "_q") -> str:
+    """Rename the targets of every `{% for %}` of a template (and their uses inside the loop).  Token based (jinja2's lexer);
+    `loop`, attribute names after a dot and keyword-argument names are left alone.  Whitespace that `-%}` / `{%-` strip anyway may
+    be dropped by the lexer; the rendered output is unchanged (checked once by rendering both trees, see DESIGN 10.8)."""
+    import jinja2
+    env = jinja2.Environment(keep_trailing_newline=True)
+    toks = list(env.lex(src))
+    n = len(toks)
+    res = [t[2] for t in toks]
+    stack = []
+
+    def nxt(j):
+        j += 1
+        while j < n and toks[j][1] == "whitespace":
+            j += 1
+        return j
+
+    def prv(j):
+        j -= 1
+        while j >= 0 and toks[j][1] == "whitespace":
+            j -= 1
+        return j
+    j = 0
+    while j < n:
+        _, typ, val = toks[j]
+        if typ == "block_begin":
+            k = nxt(j)
+            if k < n and toks[k][1] == "name" and toks[k][2] == "for":
+                names, tgt_idx = set(), []
+                m = nxt(k)
+                while m < n and not (toks[m][1] == "name" and toks[m][2] == "in"):
+                    if toks[m][1] == "name":
+                        names.add(toks[m][2])
+                        tgt_idx.append(m)
+                    m = nxt(m)
+                outer = set().union(*stack) if stack else set()
+                stack.append(names)
+                for t in tgt_idx:
+                    res[t] = toks[t][2] + suffix
+                e = nxt(m)
+                while e < n and toks[e][1] != "block_end":
+                    if toks[e][1] == "name":
+                        p_, q_ = prv(e), nxt(e)
+                        if toks[e][2] in outer and not (p_ >= 0 and toks[p_][1] == "dot") and not (q_ < n and toks[q_][1] == "assign"):
+                            res[e] = toks[e][2] + suffix
+                    e = nxt(e)
+                j = e + 1
+                continue
+            if k < n and toks[k][1] == "name" and toks[k][2] == "endfor" and stack:
+                stack.pop()
+        if typ == "name" and stack:
+            scope = set().union(*stack)
+            p_, q_ = prv(j), nxt(j)
+            if val in scope and val != "loop" and not (p_ >= 0 and toks[p_][1] == "dot") and \
+                    not (q_ < n and toks[q_][1] == "assign" and p_ >= 0 and toks[p_][1] in ("comma", "lparen")):
+                res[j] = val + suffix
+        j += 1
+    return "".join(res)
+
+
+VARIANTS = {"swap-eq": _SwapEq, "keys-in": _KeysIn, "swap-branches": _SwapBranches, "jinja-loopvars": None}
 
 
 def transform(tree: SourceTree, kind: str) -> dict:
     overlay = {}
+    if kind == "jinja-loopvars":
+        for rel in tree.files():
+            if rel.endswith(".j2"):
+                try:
+                    t = _jinja_rename_loopvars(tree.read(rel))
+                except Exception:
+                    continue
+                if t != tree.read(rel):
+                    overlay[rel] = t
+        return overlay
     for rel in tree.files():
         if not rel.endswith(".py") or rel.startswith("naunet/examples/"):
             continue
